@@ -112,6 +112,19 @@ c04_h!(c04_q_text_bg, 3, 40, { let o = Point::new(2, -3); }, |t| {
     Text::new("! ", o, st).draw(t).map(|_| ())
 });
 
+// fonts with character spacing: the gaps between characters are separate fill_solid calls when a
+// background colour is set (built-in fonts have no spacing, so only a custom font reaches these calls)
+c04_h!(c04_q_text_spaced_bg, 4, 40, { let o = point(4); let sp = 1 + small_u(1); }, |t| {
+    let font = MonoFont { character_spacing: sp, ..FONT_4X6 };
+    let st = MonoTextStyleBuilder::new().font(&font).text_color(Gray8::new(1)).background_color(Gray8::new(2)).underline().build();
+    Text::new("!\" !\n!!", o, st).draw(t).map(|_| ())
+});
+c04_h!(c04_q_text_spaced_bg_only, 3, 40, { let o = Point::new(2, -3); }, |t| {
+    let font = MonoFont { character_spacing: 2, ..FONT_4X6 };
+    let st = MonoTextStyleBuilder::new().font(&font).background_color(Gray8::new(2)).build();
+    Text::new("!\"!", o, st).draw(t).map(|_| ())
+});
+
 // through the adapters (symbolic adapter arguments)
 c04_h!(c04_q_clipped_circle, 4, 14, { let a = rect(4, 4); }, |t| Circle::new(P1, 7).into_styled(style(2, StrokeAlignment::Inside, c(1), c(2))).draw(&mut t.clipped(&a)));
 c04_h!(c04_q_translated_ellipse, 4, 14, { let o = point(4); }, |t| Ellipse::new(P1, Size::new(7, 4)).into_styled(style(1, StrokeAlignment::Inside, c(1), c(2))).draw(&mut t.translated(o)));
